@@ -2166,3 +2166,63 @@ pub async fn measure_reload() -> Vec<(String, Value)> {
     acc.abort();
     out
 }
+
+/// C10: one client endpoint pinning a short-lived certificate connects while it is valid, then
+/// again (same endpoint, so whatever the TLS stack cached is still there) after it has expired;
+/// a fresh endpoint with the same pin is the control. Returns what each attempt reported.
+pub async fn measure_reconnect_after_expiry(valid_s: i64) -> Vec<(String, Value)> {
+    let mut out = Vec::new();
+    let now = time::OffsetDateTime::now_utc();
+    let not_after = now + time::Duration::seconds(valid_s);
+    let id = Identity::self_signed_builder()
+        .subject_alt_names(["localhost", "127.0.0.1"])
+        .validity_period(now - time::Duration::hours(1), not_after)
+        .build()
+        .expect("identity");
+    let hash = id.certificate_chain().as_slice()[0].hash();
+    let cfg = ServerConfig::builder().with_bind_address("127.0.0.1:0".parse().unwrap()).with_identity(id).build();
+    let Ok(ep) = Endpoint::server(cfg) else { return out };
+    let port = ep.local_addr().unwrap().port();
+    let acc = tokio::spawn(async move {
+        loop {
+            let inc = ep.accept().await;
+            tokio::spawn(async move {
+                if let Ok(req) = inc.await {
+                    if let Ok(c) = req.accept().await {
+                        c.closed().await;
+                    }
+                }
+            });
+        }
+    });
+    let mk = |h: wtransport::tls::Sha256Digest| {
+        Endpoint::client(
+            ClientConfig::builder()
+                .with_bind_address("127.0.0.1:0".parse().unwrap())
+                .with_server_certificate_hashes([h])
+                .build(),
+        )
+        .expect("client ep")
+    };
+    let url = format!("https://127.0.0.1:{port}/");
+    let describe = |r: Result<Result<Connection, ConnectingError>, tokio::time::error::Elapsed>| match r {
+        Ok(Ok(c)) => {
+            c.close(VarInt::from_u32(0), b"");
+            json!("ok")
+        }
+        Ok(Err(_)) => json!("err"),
+        Err(_) => json!("hang"),
+    };
+    let same = mk(hash.clone());
+    out.push(("valid_s".into(), json!(valid_s)));
+    out.push(("first_while_valid".into(), describe(timeout(Duration::from_secs(5), same.connect(&url)).await)));
+    // a second connection while still valid (this is the one that may be resumed later)
+    out.push(("second_while_valid".into(), describe(timeout(Duration::from_secs(5), same.connect(&url)).await)));
+    let left = not_after - time::OffsetDateTime::now_utc();
+    tokio::time::sleep(Duration::from_millis((left.whole_milliseconds().max(0) as u64) + 1500)).await;
+    out.push(("same_endpoint_after_expiry".into(), describe(timeout(Duration::from_secs(5), same.connect(&url)).await)));
+    let fresh = mk(hash);
+    out.push(("fresh_endpoint_after_expiry".into(), describe(timeout(Duration::from_secs(5), fresh.connect(&url)).await)));
+    acc.abort();
+    out
+}
